@@ -2857,6 +2857,12 @@ namespace bloch::runtime {
                     } else if (name == "cx") {
                         ensureQubitActive(args[0].qubit, callExpr->line, callExpr->column);
                         ensureQubitActive(args[1].qubit, callExpr->line, callExpr->column);
+                        if (args[0].qubit == args[1].qubit) {
+                            // e.g. f(a, a) with cx(p, q) inside f: not a gate, and "cx q[i],q[i];"
+                            // is not valid OpenQASM.
+                            throw BlochError(ErrorCategory::Runtime, callExpr->line, callExpr->column,
+                                             "cx requires two distinct qubits");
+                        }
                         m_sim.cx(args[0].qubit, args[1].qubit);
                     }
                     return {};  // void
